@@ -103,6 +103,14 @@ impl FileWithHeader {
         file.read_exact(&mut header)?;
         let header_len =
             header_len as usize + LINE_ENDS.len() + mem::size_of_val(&header_len);
+        // a file cut off inside its header (can happen to a just created index)
+        // would make every later length calculation underflow
+        if metadata.len() < header_len as u64 {
+            return Err(OpenError::Io(io::Error::new(
+                io::ErrorKind::UnexpectedEof,
+                "file is shorter than its header",
+            )));
+        }
 
         tracing::Span::current()
             .record("file_len", metadata.len())
